@@ -99,6 +99,15 @@ func (e *env) afterDeliver(v *variant, src, res, before string) {
 				fmt.Sprintf("delivered=%d %s", v.wid, e.detail()))
 		}
 	}
+	// (0b) a block that is invalid on its face (a wrong / empty / malformed declared root, a bad
+	// block signature, an invalid or duplicated transaction) never moves the chain — the cases where
+	// the delivery is answered with a validity error are judged by (1)
+	if !v.static && !validityErr[res] && res != "panic" {
+		if after := e.lightSnap(); after != before {
+			out.Pred(Prop+"|PreExecBlock|invalid-block-changed-the-chain|result-"+res,
+				fmt.Sprintf("delivered=%d flags=%s %s", v.wid, v.flags, e.detail()))
+		}
+	}
 	// (2) no poisoning: the first delivery of the genuine block must not be answered "exist"
 	if v.genuine {
 		if !e.genuineDel[v.hdr] {
@@ -218,7 +227,18 @@ func (e *env) scanChain() {
 			if e.expiredIndep(tx.Expire, h, b.BlockTime) || tx.IsExpire(cfg, h, b.BlockTime) {
 				out.Pred(Prop+"|checkTx|expired-tx-on-best-chain", where+" "+e.detail())
 			}
-			if tx.ChainID != cfg.GetChainID() {
+			if tx.GroupCount > 0 {
+				// group members: the header transaction pays for all — the sum of each member's own real fee
+				if int(tx.GroupCount) >= 2 && i+int(tx.GroupCount) <= len(b.Txs) && bytes.Equal(tx.Header, hash) {
+					if req := groupRequired(b.Txs[i:i+int(tx.GroupCount)], cfg.GetMinTxFeeRate()); tx.Fee < req {
+						out.Pred(Prop+"|checkTxGroup|group-underpays-fee|on-best-chain",
+							fmt.Sprintf("fee=%d required=%d members=%d ", tx.Fee, req, tx.GroupCount)+where+" "+e.detail())
+					}
+				}
+				if tx.ChainID != cfg.GetChainID() {
+					out.Pred(Prop+"|checkTx|fee-or-chainid-invalid-tx-on-best-chain", where+" err=chainid "+e.detail())
+				}
+			} else if tx.ChainID != cfg.GetChainID() {
 				out.Pred(Prop+"|checkTx|fee-or-chainid-invalid-tx-on-best-chain", where+" err=chainid "+e.detail())
 			} else if minFee := int64(types.Size(tx)/1000+1) * cfg.GetMinTxFeeRate(); tx.Fee < minFee {
 				out.Pred(Prop+"|checkTx|fee-or-chainid-invalid-tx-on-best-chain", where+" err=fee-below-minimum "+e.detail())
@@ -242,6 +262,16 @@ func (e *env) scanChain() {
 	out.Stat("chain_blocks_scanned", top)
 }
 
+// groupRequired: what the header transaction of a group has to pay — every member is charged
+// (size/1000+1) * minFeeRate on its own (recomputed here, not through Transactions.Check).
+func groupRequired(members []*types.Transaction, rate int64) int64 {
+	var sum int64
+	for _, m := range members {
+		sum += int64(types.Size(m)/1000+1) * rate
+	}
+	return sum
+}
+
 // scanProduced: C28 for a block the node produced itself on its tip (signatures are the mempool's
 // business on this path): no transaction twice in the block or already on the best chain, none
 // expired at the block's height and time, fee and chain id fine.
@@ -258,7 +288,14 @@ func (e *env) scanProduced(b *types.Block) {
 		if e.expiredIndep(tx.Expire, b.Height, b.BlockTime) {
 			out.Pred(Prop+"|checkTx|producer-kept-an-expired-tx", where+" "+e.detail())
 		}
-		if tx.ChainID != cfg.GetChainID() || tx.Fee < int64(types.Size(tx)/1000+1)*cfg.GetMinTxFeeRate() {
+		if tx.GroupCount > 0 {
+			if int(tx.GroupCount) >= 2 && i+int(tx.GroupCount) <= len(b.Txs) && bytes.Equal(tx.Header, hash) {
+				if req := groupRequired(b.Txs[i:i+int(tx.GroupCount)], cfg.GetMinTxFeeRate()); tx.Fee < req {
+					out.Pred(Prop+"|checkTxGroup|group-underpays-fee|in-produced-block",
+						fmt.Sprintf("fee=%d required=%d members=%d ", tx.Fee, req, tx.GroupCount)+where+" "+e.detail())
+				}
+			}
+		} else if tx.ChainID != cfg.GetChainID() || tx.Fee < int64(types.Size(tx)/1000+1)*cfg.GetMinTxFeeRate() {
 			out.Pred(Prop+"|checkTx|producer-kept-a-fee-or-chainid-invalid-tx", where+" "+e.detail())
 		}
 	}
